@@ -32,6 +32,7 @@ type input struct {
 	Kind string `json:"kind"` // css | selector | decl | sheet | svg | url | attr | counter
 	Text string `json:"text"`
 	Name string `json:"name,omitempty"` // property / attribute / descriptor name
+	Fam  string `json:"fam,omitempty"`  // generator family (evidence only)
 }
 
 var propNames []string
@@ -279,7 +280,17 @@ func init() {
 				}
 				return input{Kind: "decl", Name: name, Text: valueSeq(r)}
 			case i < css+sel+decl+sheet:
-				return input{Kind: "sheet", Text: genSheet(r)}
+				t := genSheet(r)
+				fam := ""
+				switch {
+				case strings.Contains(t, "@import"):
+					fam = "sheet-import"
+				case strings.HasPrefix(t, "@page"):
+					fam = "sheet-page"
+				case strings.HasPrefix(t, "@media"):
+					fam = "sheet-media"
+				}
+				return input{Kind: "sheet", Text: t, Fam: fam}
 			case i < css+sel+decl+sheet+svg:
 				n := 1 + r.Intn(5)
 				var parts []string
@@ -289,7 +300,7 @@ func init() {
 				if r.Intn(2) == 0 {
 					// grammar-directed: the attribute's own value grammar, with wrong counts of numbers
 					name := gen.Pick(r, svgGrammarAttrs)
-					return input{Kind: "svg", Name: name, Text: svgGrammarValue(r, name)}
+					return input{Kind: "svg", Name: name, Text: svgGrammarValue(r, name), Fam: "svg-grammar"}
 				}
 				return input{Kind: "svg", Name: gen.Pick(r, svgAttrs), Text: strings.Join(parts, gen.Pick(r, []string{" ", "", ","}))}
 			case i < css+sel+decl+sheet+svg+url:
@@ -297,7 +308,7 @@ func init() {
 			case i < css+sel+decl+sheet+svg+url+attr:
 				// every attribute name with every single fragment first (exhaustive), then random pairs
 				if k := i - (css + sel + decl + sheet + svg + url); k < len(htmlAttrs)*len(attrFrags) {
-					return input{Kind: "attr", Name: htmlAttrs[k%len(htmlAttrs)], Text: attrFrags[k/len(htmlAttrs)]}
+					return input{Kind: "attr", Name: htmlAttrs[k%len(htmlAttrs)], Text: attrFrags[k/len(htmlAttrs)], Fam: "attr-exhaustive"}
 				}
 				return input{Kind: "attr", Name: gen.Pick(r, htmlAttrs), Text: gen.Pick(r, attrFrags) + gen.Pick(r, attrFrags)}
 			default:
@@ -312,7 +323,7 @@ func init() {
 			return 30000
 		},
 		CounterFloors: func(tier string) map[string]int64 {
-			return map[string]int64{"kind_css": 10000, "kind_selector": 10000, "kind_decl": 50000, "kind_sheet": 5000, "kind_svg": 4000, "kind_url": 5000, "kind_attr": 5000, "kind_counter": 2000, "decl_accepted": 2000, "selectors_parsed": 2000}
+			return map[string]int64{"kind_css": 10000, "kind_selector": 10000, "kind_decl": 50000, "kind_sheet": 5000, "kind_svg": 4000, "kind_url": 5000, "kind_attr": 5000, "kind_counter": 2000, "decl_accepted": 2000, "selectors_parsed": 2000, "fam_attr-exhaustive": 4000, "fam_svg-grammar": 2000, "fam_sheet-import": 1000, "fam_sheet-page": 1500, "fam_sheet-media": 1500}
 		},
 		Exhaustive:  func(string) bool { return false },
 		Assumptions: []string{"only the listed entry points and generated inputs are exercised; a clean run is not a proof of crash freedom", "CPU budget 120 s per call sequence as the bounded restatement of 'terminates'"},
@@ -415,6 +426,9 @@ func check(raw json.RawMessage) fw.Result {
 	}
 	wr.Quiet()
 	res.Count("kind_"+in.Kind, 1)
+	if in.Fam != "" {
+		res.Count("fam_"+in.Fam, 1)
+	}
 	step := func(name string, f func()) bool {
 		sig, msg, stack := fw.Protect(f)
 		if sig != "" {
